@@ -484,7 +484,7 @@ def run(ctx):
 
 
 MANIFEST = dict(
-    text='Decides structural necessary conditions of hierarchy queries on every path: R-COPY (every field of every element/cell/library struct copied by copy_from and by the hand-rolled filter copies, owning fields never aliased), the four Reference::get_* collectors are one clone family (same depth handed down, one output per (element, offset), copy for all but the last offset, placement transform with origin + offset, attached repetition mapped by the same linear part, and Repetition::transform itself is identically m R(rot) diag(1, +-1) on every kind and parameter valuation), the apply_repetitions and depth blocks of the four Cell::get_* are identical and have the confirmed shape ([start, finish) range; depth > 0 ? depth - 1 : -1 under depth != 0), Cell::flatten expands only Cell references, collects all four kinds at depth -1 into its own arrays and re-examines the index after remove_unordered. Geometric equality of hierarchical vs flattened shapes is not decided.',
+    text='Decides structural necessary conditions of hierarchy queries on every path: R-COPY (every field of every element/cell/library struct copied by copy_from and by the hand-rolled filter copies, owning fields never aliased), the four Reference::get_* collectors are one clone family (same depth handed down, one output per (element, offset), copy for all but the last offset, placement transform with origin + offset, attached repetition mapped by the same linear part, and Repetition::transform itself is identically m R(rot) diag(1, +-1) on every kind and parameter valuation), the apply_repetitions and depth blocks of the four Cell::get_* are identical and have the confirmed shape ([start, finish) range; depth > 0 ? depth - 1 : -1 under depth != 0), Cell::flatten expands only Cell references, collects all four kinds at depth -1 into its own arrays and re-examines the index after remove_unordered. Geometric equality of hierarchical vs flattened shapes is not decided. The four Cell::get_* collectors are decided by interpretation (R-MODEL.collect, sa/minieval: 48 runs on a cell with three own elements, two references and two earlier outputs): own (selected) elements copied once, apply_repetition exactly once on each fresh copy and on nothing else, references descended iff depth != 0 with depth - 1 and the caller\'s other arguments; their clone families are advisory.',
     note='Trusted: clang front end, gx, sa rules; record layouts come from clang (a new field is picked up automatically). Exemptions: `owner` (belongs to the Python wrapper), Reference.cell/rawcell (non-owning by design).',
-    technique='record-layout-driven copy completeness/depth rule + loop summaries, path conditions and argument evaluation for the recursion into references + symbolic affine identities + clone-family comparison over α-normalised typed ASTs for the remaining sibling collectors',
+    technique='record-layout-driven copy completeness/depth rule + loop summaries, path conditions and argument evaluation for the recursion into references + symbolic affine identities + clone-family comparison over α-normalised typed ASTs for the remaining sibling collectors + interpretation of the Cell::get_* collectors on a small cell (sa/minieval)',
     design='§4 C06')
